@@ -10,7 +10,7 @@ Import ListNotations.
 Local Open Scope string_scope.
 Local Open Scope list_scope.
 From YP Require Import Base.Str Term.Term Term.Show Term.Fast Term.Dfast Unify.Unify Unify.Fast Unify.UnifyGen Unify.UnifyGenFast Lang.Ast Comp.IR
-  Comp.CompileBody Comp.CompileClause Sem.Machine Engine.GenMachine Engine.Restore Engine.RunGen Engine.IRMachine Engine.QueryFacts Sem.Native Engine.Refine Engine.RefineNative Engine.RefineExc.
+  Comp.CompileBody Comp.CompileClause Sem.Machine Engine.GenMachine Engine.Restore Engine.RunGen Engine.IRMachine Engine.QueryFacts Sem.Native Engine.Refine Engine.RefineNative Engine.RefineExc Engine.RefineRaising.
 
 (* def pyp(x): for v in (atom('a'), atom('c')): for _ in unify(x, v): yield False *)
 Definition pyp_user (name : str) (args : list term) : option (code lx fr callp * fr) :=
@@ -189,6 +189,33 @@ Definition refine_example_native : bool :=
           | h1 :: _ :: h3 :: _ => obs_eqb (term_obs (dfast h1 (TVar 0))) (term_obs (TAtom (d "a"))) &&
                                   obs_eqb (term_obs (dfast h3 (TVar 0))) (term_obs (TAtom (d "c")))
           | _ => false end
+      | _ => false
+      end
+  end.
+
+(* the same program with pyq raising INSTEAD OF its answer number 1 (Native.raising, the predicate of C20's
+   exception_passthrough): the machine code pyrows_at against nquery of the world with `raising (native_rows ..) 1` *)
+Definition ex_ufix_at (name : str) (k : nat) : option ucode :=
+  if str_eqb name (d "pyq") && Nat.eqb k 1 then Some (pyrows_at pyp_rows 1) else None.
+Definition ex_ffix_at (name : str) (k : nat) : option nfun :=
+  if str_eqb name (d "pyq") && Nat.eqb k 1 then Some (raising (native_rows pyp_rows [true; true]) 1) else None.
+Lemma ex_table_at_ok ir dyn : forall name k, orealizes ir dyn ex_ufix_at novar (ex_ufix_at name k) (ex_ffix_at name k).
+Proof.
+  intros name k. unfold ex_ufix_at, ex_ffix_at. destruct (str_eqb name (d "pyq") && Nat.eqb k 1); cbn [orealizes]; [|exact I].
+  apply pyrows_at_realizes.
+Qed.
+Definition refine_example_raising : bool :=
+  match compile_program ex_t with
+  | None => false
+  | Some ir =>
+      let dyn := rows_of ex_db in
+      let big := nquery 20 (mkw ir ex_ffix_at (fun _ => None) dyn) (d "t") [TVar 0; TVar 1] (mkst [] 2) in
+      match w_nexts ir dyn ex_ufix_at novar 2000 20 9 [] (w_query ir dyn ex_ufix_at novar (d "t") [TVar 0; TVar 1] 2) with
+      | Some (hf, IDone, ys, RRaise) =>
+          Nat.eqb (length ys) 2 && Nat.eqb (length hf) 0 && Nat.eqb (length (fst big)) 2 && snd big &&
+          forallb (fun p => obs_eqb (OL (map (fun b => OL [onat (fst b); term_obs (snd b)]) (fst p)))
+                                    (OL (map (fun b => OL [onat (fst b); term_obs (snd b)]) (sto (snd p)))))
+                  (combine ys (fst big))
       | _ => false
       end
   end.
